@@ -95,6 +95,51 @@ class C10(Check):
             else:
                 self.holds("V1", MOD, q, cons, node, "depends on results and normalise on every path that has rows")
         self.windows(fn, q)
+        # the operation itself: each produced frame is <frame> / <something computed from normalise> (a transpose around it is fine)
+        from ..core import expand_locals, single_defs
+
+        defs = single_defs(fn, anywhere=True)
+        factor_names = {params[1]} if len(params) > 1 else set()
+        for _ in range(3):
+            for k, v in defs.items():
+                if any(isinstance(y, ast.Name) and y.id in factor_names for y in ast.walk(v)):
+                    factor_names.add(k)
+        loop_items = set()
+        for x in ast.walk(fn):
+            if isinstance(x, (ast.For, ast.comprehension)):
+                for y in ast.walk(x.target):
+                    if isinstance(y, ast.Name):
+                        (factor_names if any(isinstance(z, ast.Name) and z.id in factor_names for z in ast.walk(x.iter)) and not any(
+                            isinstance(z, ast.Name) and z.id == params[0] for z in ast.walk(x.iter)) else loop_items).add(y.id)
+                if isinstance(x.iter, ast.Call) and norm(x.iter.func) == "zip" and isinstance(x.target, ast.Tuple):
+                    for t_, a_ in zip(x.target.elts, x.iter.args):
+                        if isinstance(t_, ast.Name) and any(isinstance(z, ast.Name) and z.id in factor_names for z in ast.walk(a_)):
+                            factor_names.add(t_.id)
+                            loop_items.discard(t_.id)
+        produced = []
+        for x in walk_no_nested(fn):
+            if isinstance(x, ast.Return) and isinstance(x.value, ast.ListComp):
+                produced.append(x.value.elt)
+            if isinstance(x, ast.Call) and isinstance(x.func, ast.Attribute) and x.func.attr == "append" and x.args:
+                produced.append(x.args[0])
+        n_ok = 0
+        for e in produced:
+            e0 = expand_locals(e, defs, depth=2)
+            while isinstance(e0, ast.Attribute) and e0.attr == "T":
+                e0 = e0.value
+            ok = isinstance(e0, ast.BinOp) and isinstance(e0.op, ast.Div) \
+                and any(isinstance(z, ast.Name) and z.id in loop_items for z in ast.walk(e0.left)) \
+                and any(isinstance(z, ast.Name) and z.id in factor_names for z in ast.walk(e0.right)) \
+                and not any(isinstance(z, ast.Name) and z.id in factor_names for z in ast.walk(e0.left))
+            if ok:
+                n_ok += 1
+            else:
+                self.violated("V1", MOD, q, f"divides `{norm(e)[:40]}`", e, f"`{norm(e)[:70]}` is not the frame divided by its normalisation factor",
+                              witness="get_fluxes(normalise=2.0) returns fluxes times two")
+        if produced and n_ok == len(produced):
+            self.holds("V1", MOD, q, "divides", produced[0], f"all {n_ok} produced frames are frame / factor")
+        elif not produced:
+            self.undecided_ob("V1", MOD, q, "divides", fn, "produced frames not recognised")
 
     def windows(self, fn, q) -> None:
         """Per-row branch: the window arithmetic for three segments (mxverif.windows)."""
